@@ -476,6 +476,82 @@ func runC07(c *fw.Ctx) {
 		c.Count("flattening_collision_pairs")
 		c07Pair(c, r, a, b, desc)
 	})
+	// operands that are, or contain, derived structures (user types embedding a List / Object and registered with Init,
+	// the README's "Derived Structures"): they are Lists / Objects, so Equals is typed structural equality for them too
+	c.Cases("derived-structures", c.N(400, 100000), false, func(i int, r *rng.R) {
+		root := spec.List
+		if r.Bool() {
+			root = spec.Obj
+		}
+		a := spec.GenTree(r, spec.Opts{MaxDepth: r.Range(1, 3), MaxWidth: r.Range(1, 4), Root: root, ScalarBias: r.Range(4, 7), SafeKeys: true})
+		b, desc := a.Clone(), "equal content"
+		if r.Chance(2, 3) {
+			b, desc = editTree(r, a)
+		}
+		var build func(t *spec.Spec, derivedChance int) any
+		build = func(t *spec.Spec, derivedChance int) any {
+			if !t.IsContainer() {
+				return drive.Native(t)
+			}
+			derived := r.Intn(10) < derivedChance
+			if t.K == spec.List {
+				args := make([]any, len(t.L))
+				for j, e := range t.L {
+					args[j] = build(e, derivedChance)
+				}
+				if derived {
+					switch r.Intn(3) {
+					case 0:
+						return NewDList(args...)
+					case 1:
+						return NewDDList(args...)
+					}
+					return NewDDDList(args...)
+				}
+				return at.NewList(args...)
+			}
+			args := make([]any, 0, 2*len(t.Keys))
+			for j, k := range t.Keys {
+				args = append(args, k, build(t.Vals[j], derivedChance))
+			}
+			if derived {
+				switch r.Intn(3) {
+				case 0:
+					return NewDObject(args...)
+				case 1:
+					return NewDDObject(args...)
+				}
+				return NewDDDObject(args...)
+			}
+			return at.NewObject(args...)
+		}
+		in := func() string {
+			return fmt.Sprintf("pair (%s) with derived structures at random nodes\n a = %s\n b = %s", desc, a.Canon(), b.Canon())
+		}
+		guard(c, in, func() {
+			c.Distinct(in())
+			c.Count("derived_structure_pairs")
+			ops := []struct {
+				name string
+				t    *spec.Spec
+				v    any
+			}{{"plain a", a, build(a, 0)}, {"a with derived nodes", a, build(a, 5)}, {"a, every node derived", a, build(a, 10)}, {"b with derived nodes", b, build(b, 5)}, {"plain b", b, build(b, 0)}}
+			for _, x := range ops {
+				for _, y := range ops {
+					want := spec.Equal(x.t, y.t)
+					var got bool
+					if p, msg := drive.Protect(func() { got = equalsOf(x.v, y.v) }); p {
+						c.Violate("equals-panics", in()+"\n("+x.name+").Equals("+y.name+")", fmt.Sprint(want), "panic: "+msg)
+						return
+					}
+					if got != want {
+						c.Violate("equals-differs-from-structural-equality", in()+"\n("+x.name+").Equals("+y.name+")", fmt.Sprint(want), fmt.Sprint(got))
+						return
+					}
+				}
+			}
+		})
+	})
 	c.Cases("pairs", c.N(5000, 3000000), false, func(i int, r *rng.R) {
 		root := spec.List
 		if r.Bool() {
